@@ -6,7 +6,7 @@
      vec     = k (key value)*
    observable : per op   accepted(0/1) enc_topo(state after)      (Spec.enc_topo)
      enc_topo = ninfos (name parent isParent force treeRoot tree min[3] max[3])*
-                nhier (key nchildren child*)*  nns (ns quota)*      (-1 = dimension not declared) *)
+                nhier (key nchildren children)*  nns (ns quota)*      (-1 = dimension not declared) *)
 From Coq Require Import List ZArith Bool.
 From Verif Require Import Lib.Wire C15.Model C15.Spec.
 Import ListNotations.
